@@ -29,6 +29,7 @@ type nilCtx struct {
 	spInvOK  bool                              // constructor invariant: registered providers have Metadata and Metadata.SPSSODescriptor
 	chainFx  map[*ssa.Function]map[string]bool // closure -> access paths known non-nil on entry (facts of earlier steps)
 	callers  map[*ssa.Function][]ssa.CallInstruction
+	tested   map[string]string // typed path of a configuration field -> where it is compared with nil
 }
 
 func isXMLModelStruct(t types.Type) bool {
@@ -63,6 +64,41 @@ func (nc *nilCtx) mayBeNil(v ssa.Value) bool {
 		nc.memo[v] = 3
 	}
 	return res
+}
+
+// nilTested: typed access paths of configuration / provider fields that some function in scope compares with nil.
+func (nc *nilCtx) nilTested() map[string]string {
+	if nc.tested != nil {
+		return nc.tested
+	}
+	nc.tested = map[string]string{}
+	fx := nc.cx.Fx
+	for f := range nc.scope {
+		for _, b := range f.Blocks {
+			for _, in := range b.Instrs {
+				bo, ok := in.(*ssa.BinOp)
+				if !ok {
+					continue
+				}
+				x, _, isNT := nilTest(bo)
+				if !isNT || isErrorType(x.Type()) {
+					continue
+				}
+				ld, isLd := x.(*ssa.UnOp)
+				if !isLd {
+					continue
+				}
+				if _, isFA := ld.X.(*ssa.FieldAddr); !isFA {
+					continue
+				}
+				t := fx.T(fx.path(x))
+				if strings.HasPrefix(t, "<") && nc.tested[t] == "" {
+					nc.tested[t] = nc.cx.W.InstrPos(bo)
+				}
+			}
+		}
+	}
+	return nc.tested
 }
 
 func (nc *nilCtx) note(v ssa.Value, s string) bool {
@@ -144,6 +180,14 @@ func (nc *nilCtx) mayBeNil0(v ssa.Value) bool {
 					}
 				}
 				return nc.note(v, fmt.Sprintf("optional element/record field %s.%s of an object filled from outside (absent element => nil)", owner, fv.Name()))
+			}
+			if outside && !constructed && !isXMLModelStruct(a.X.Type()) && isPtrLike(x.Type()) {
+				// a field of a configuration / provider object: taken to be set up by the constructors - unless the
+				// code itself says otherwise by testing the very same field for nil somewhere on a request path
+				// (two beliefs about one pointer: the unguarded dereference is the wrong one)
+				if at := nc.nilTested()[fx.T(fx.path(v))]; at != "" && !(nc.cfgInvOK && strings.HasSuffix(fx.T(fx.path(v)), "<provider.Config>.IDPConfig")) {
+					return nc.note(v, fmt.Sprintf("%s.%s, which the code tests for nil at %s (so it can be nil)", owner, fv.Name(), at))
+				}
 			}
 			if constructed && isPtrLike(x.Type()) && !nc.storeDominatesLoad(a, x) {
 				// an object allocated in scope whose literal leaves this field at its zero value: the field is nil
@@ -515,6 +559,39 @@ func (nc *nilCtx) guardedAt(at ssa.Instruction, v ssa.Value) bool {
 			return true
 		}
 		// len(x) > 0 style facts do not prove non-nil pointers
+	}
+	// lazy initialisation: `if x.f == nil { x.f = make(...) }` dominating the use: non-nil on both sides of the join
+	if ld, ok := v.(*ssa.UnOp); ok && ld.Op == token.MUL {
+		for _, st := range fx.info(at.Parent()).stores {
+			if fx.path(st.Addr) != "&"+p && deref(fx.path(st.Addr)) != p {
+				continue
+			}
+			switch st.Val.(type) {
+			case *ssa.MakeMap, *ssa.Alloc, *ssa.MakeSlice, *ssa.MakeClosure, *ssa.MakeInterface:
+			default:
+				continue
+			}
+			sb := st.Block()
+			if len(sb.Preds) != 1 {
+				continue
+			}
+			pb := sb.Preds[0]
+			ifi, isIf := pb.Instrs[len(pb.Instrs)-1].(*ssa.If)
+			if !isIf {
+				continue
+			}
+			x, tnn, isNT := nilTest(ifi.Cond)
+			if !isNT || fx.path(x) != p {
+				continue
+			}
+			nilSide := pb.Succs[1]
+			if !tnn {
+				nilSide = pb.Succs[0]
+			}
+			if nilSide == sb && pb.Dominates(at.Block()) && at.Block() != sb {
+				return true
+			}
+		}
 	}
 	// facts established by earlier chain steps (valid on entry of this closure), and facts holding
 	// where the closure was created (a getter made under `if x.Conditions != nil` and called right there)
